@@ -809,13 +809,20 @@ def run_impl(case, suspend=False, cancel_at=None, cancel_id=9, reply=False):
     unraisable = []
     oldhook = sys.unraisablehook
     sys.unraisablehook = lambda u: unraisable.append("%s: %s" % (type(u.exc_value).__name__, u.exc_value))
+    # like an event loop, take over the finalisation of async generators that are dropped while suspended: their cleanup
+    # is deferred (here: never run), so whatever the library leaves to the garbage collector shows up as unreleased
+    orphans = []
+    oldhooks = sys.get_asyncgen_hooks()
+    sys.set_asyncgen_hooks(firstiter=lambda agen: None, finalizer=orphans.append)
     try:
         r = _run_impl(case, suspend, cancel_at, cancel_id, reply)
         r["unraisable"] = unraisable
+        r["orphans"] = ["%s" % getattr(g, "__qualname__", g) for g in orphans]
         return r
     except Runaway as e:
         return {"outcome": ("exn", ("other", "Runaway"), e), "log": [], "states": [], "uses": 0, "srcs": [], "ctx": Ctx(None), "obj": None, "tokens": [], "unraisable": unraisable}
     finally:
+        sys.set_asyncgen_hooks(*oldhooks)
         sys.unraisablehook = oldhook
         signal.setitimer(signal.ITIMER_REAL, 0)
         signal.signal(signal.SIGALRM, old)
